@@ -122,14 +122,20 @@ fn reset_history(rng: &mut Rng, out: &mut CaseOut) {
     for _ in 0..rng.range(2, if crate::thorough() { 16 } else { 6 }) {
         // alternate sides of the rule on purpose
         let (k, r) = loop {
-            let class = if rng.chance(2, 3) { Class::Small } else { Class::Edge };
+            // mostly small; now and then anywhere in the envelope (corners included)
+            let class = match rng.below(40) {
+                0..=25 => Class::Small,
+                26..=37 => Class::Edge,
+                38 => Class::Large,
+                _ => Class::Corner,
+            };
             let (k, r) = gen::config(rng, class, RateKind::Default);
             let h = gen::rule_high(k, r);
             if last_high != Some(h) || rng.chance(1, 4) {
                 break (k, r);
             }
         };
-        let size = *rng.pick(&[2usize, 30, 64, 66]);
+        let size = if k.max(r) > 4096 { 2 } else { *rng.pick(&[2usize, 30, 64, 66]) };
         let high = gen::rule_high(k, r);
         if last_high.is_some() && last_high != Some(high) {
             switches += 1;
